@@ -357,16 +357,22 @@ def run_query(pid, q, keep=False):
     r["properties_checked"] = len(results)
     funcs = sorted(set(x.get("sourceLocation", {}).get("function", "") for x in results) - {""})
     r["functions_with_obligations"] = funcs
-    failed = [x for x in results if x.get("status") != "SUCCESS"]
+    failed = [x for x in results if x.get("status") == "FAILURE"]
+    undecided = [x for x in results if x.get("status") not in ("SUCCESS", "FAILURE")]
+    r["undecided_properties"] = len(undecided)
     r["failed"] = [{"property": x["property"], "description": x.get("description", ""),
                     "status": x.get("status"),
                     "where": "%s:%s" % (x.get("sourceLocation", {}).get("file", "?"), x.get("sourceLocation", {}).get("line", "?"))}
                    for x in failed]
     # expected-fail bookkeeping is only for negative self-tests
-    if not failed:
-        r["verdict"] = "PASS"
-    else:
+    if failed:
         r["verdict"] = "FAIL"
+    elif undecided:
+        r["verdict"] = "INCONCLUSIVE"
+        r["kind"] = "resource"
+        r["reason"] = "%d properties left undecided by cbmc (%s)" % (len(undecided), undecided[0].get("status"))
+    else:
+        r["verdict"] = "PASS"
     # witness twin
     if q.witness and r["verdict"] == "PASS":
         gbw = os.path.join(wd, "w.gb")
